@@ -7,6 +7,12 @@
 //   * real wrapper allocators of the library (AccountingTestMemoryAllocator, MemoryLeakAllocator) around them.
 // Model address A = slot * SLOT + offset; the arena lays slot bases out so that real address == A modulo the hash prime.
 // Addresses NSLOTS*SLOT + k (k = 0,1,2) are a stack object, a static object and a block from the C library's malloc.
+// The detector is left exactly as the scenario's history puts it: fresh from its constructor (period disabled, stage 0, type checking
+// on), then enable() / disable() / startChecking() / stopChecking() / increase- / decreaseAllocationStage() / type checking switches
+// only where the scenario says so.  (The text buffer of the detector accumulates reports; it is emptied before every release through
+// the private member, not through startChecking(), which would also move the period.)
+// Entries 4 / 5 call the detector's own allocMemory / deallocMemory with allocatNodesSeperately = false / true and an arbitrary
+// allocator object; `:m 1` installs the thread-safe overloads (same bodies behind the detector's lock).
 // Scenario / observation grammar: ocaml/c06_driver.ml.
 #include <new>
 #include <string>
@@ -15,8 +21,17 @@
 #include <cstring>
 #include <csetjmp>
 #include <cctype>
+#include <cstdio>
+#include <cstdint>
+#include <cstddef>
+#include <cstring>
+#include <climits>
+#include "CppUTest/CppUTestConfig.h"      // pulls the standard headers it wants in before the next line
+#define private public                    // MemoryLeakDetector::outputBuffer_ (see above)
 #include "CppUTest/TestHarness.h"
 #include "CppUTest/MemoryLeakDetector.h"
+#undef private
+#include "CppUTest/SimpleMutex.h"
 #include "CppUTest/MemoryLeakWarningPlugin.h"
 #include "CppUTest/TestMemoryAllocator.h"
 #include "CppUTest/PlatformSpecificFunctions.h"
@@ -102,6 +117,8 @@ static void* arena_realloc(void* mem, size_t size)
 
 static jmp_buf opJmp;
 static bool jumpMode, armed;
+static bool threadSafe, lockHeld;         // lockHeld: the running release went in through a thread-safe overload
+static MemoryLeakDetector* det;
 struct Recorder : public MemoryLeakFailure
 {
     int calls = 0; int cat = 0;
@@ -113,17 +130,21 @@ struct Recorder : public MemoryLeakFailure
             line[k] = 0;
             cat = strstr(line, "non-allocated memory") ? 1 : strstr(line, "type mismatch") ? 2 : strstr(line, "memory corruption") ? 3 : 9;
         }
-        if (jumpMode && armed) longjmp(opJmp, 1);
+        if (jumpMode && armed) {
+            // a reporter that leaves by longjmp from inside a thread-safe overload has to give the detector's lock back itself
+            // (the plugin's own reporter does the same)
+            if (lockHeld) { lockHeld = false; det->getMutex()->Unlock(); }
+            longjmp(opJmp, 1);
+        }
     }
 };
 
 static Recorder rep;
-static MemoryLeakDetector* det;
 static std::vector<TestMemoryAllocator*> objs;
 static std::vector<bool> isMla;
 static std::vector<std::string*> names;
 
-static void on() { MemoryLeakWarningPlugin::turnOnDefaultNotThreadSafeNewDeleteOverloads(); }
+static void on() { if (threadSafe) MemoryLeakWarningPlugin::turnOnThreadSafeNewDeleteOverloads(); else MemoryLeakWarningPlugin::turnOnDefaultNotThreadSafeNewDeleteOverloads(); }
 static void off() { MemoryLeakWarningPlugin::turnOffNewDeleteOverloads(); }
 static TestMemoryAllocator* obj(size_t i) { if (i >= objs.size()) { fprintf(stderr, "harness: allocator index\n"); exit(3); } return objs[i]; }
 static void select(int e, size_t al)
@@ -131,6 +152,7 @@ static void select(int e, size_t al)
     if (e == 0) setCurrentNewAllocator(obj(al));
     else if (e == 1) setCurrentNewArrayAllocator(obj(al));
     else if (e == 2) setCurrentMallocAllocator(obj(al));
+    else if (e == 4 || e == 5) { if (isMla[al]) { fprintf(stderr, "harness: direct entry with a MemoryLeakAllocator\n"); exit(3); } }
     else if (e != 3 || !isMla[al]) { fprintf(stderr, "harness: entry %d needs a MemoryLeakAllocator\n", e); exit(3); }
 }
 
@@ -171,7 +193,7 @@ int main()
         }
         det = new MemoryLeakDetector(&rep);
         MemoryLeakWarningPlugin::setGlobalDetector(det, &rep);
-        det->enable();
+        threadSafe = false; lockHeld = false;
         memset(blockSize, 0, sizeof blockSize);
         while (!t.end()) {
             std::string op = t.sym();
@@ -182,6 +204,7 @@ int main()
                 nextBlock = real_of(a);
                 char* p;
                 if (e == 3) p = obj(al)->alloc_memory(n, "str.cpp", 3);
+                else if (e >= 4) p = det->allocMemory(obj(al), n, "direct.cpp", 5, e == 5);
                 else { on(); p = e == 0 ? (char*)::operator new(n) : e == 1 ? (char*)::operator new[](n) : (char*)cpputest_malloc(n); off(); }
                 nextBlock = nullptr;
                 if (p != real_of(a)) { fprintf(stderr, "harness: the allocation came back at another address\n"); exit(3); }
@@ -196,14 +219,16 @@ int main()
                 if (isRealloc) { na = t.u(); n = t.u(); if (na >= NSLOTS * SLOT || na % SLOT || n > MAXSIZE) { fprintf(stderr, "harness: bad realloc address/size\n"); exit(3); } }
                 char* p = ps == "~" ? nullptr : real_of(strtoull(ps.c_str(), nullptr, 16));
                 select(e, al);
-                det->startChecking();                                // empties the text buffer, as before every test
+                det->outputBuffer_.clear();                          // the report text starts at the category line; period untouched
                 rep.calls = 0; rep.cat = 0; nevents = 0;
                 char* volatile q = nullptr;
                 if (isRealloc) { nextRealloc = real_of(na); PlatformSpecificRealloc = arena_realloc; }
                 armed = true;
                 if (setjmp(opJmp) == 0) {
                     if (e == 3) obj(al)->free_memory(p, 0, "str.cpp", 4);
+                    else if (e >= 4) det->deallocMemory(obj(al), p, "direct.cpp", 6, e == 5);
                     else {
+                        lockHeld = threadSafe;
                         on();
                         if (isRealloc) q = (char*)cpputest_realloc(p, n);
                         else if (e == 0) ::operator delete(p);
@@ -211,7 +236,7 @@ int main()
                         else cpputest_free(p);
                     }
                 }
-                off(); armed = false;
+                off(); armed = false; lockHeld = false;
                 PlatformSpecificRealloc = savedRealloc; nextRealloc = nullptr;
                 if (isRealloc && q) {
                     if (q != real_of(na)) { fprintf(stderr, "harness: realloc came back at another address\n"); exit(3); }
@@ -219,7 +244,7 @@ int main()
                     memset(q, 0x5A, n);
                 }
                 out += "| " + hx((unsigned long long)rep.calls) + " " + hx((unsigned long long)rep.cat) + " " + hx((unsigned long long)nevents);
-                for (int i = 0; i < nevents; i++) out += " " + hx(events[i].addr) + " " + (e == 3 ? std::string("~") : hbytes(evbytes[i], events[i].n));
+                for (int i = 0; i < nevents; i++) out += " " + hx(events[i].addr) + " " + (e >= 3 ? std::string("~") : hbytes(evbytes[i], events[i].n));
                 out += " " + hx(det->totalMemoryLeaks(mem_leak_period_all)) + " " + (q ? "1" : "0") + " ";
             }
             else if (op == "w") {
@@ -227,6 +252,13 @@ int main()
                 if (a >= NSLOTS * SLOT || a % SLOT + bs.size() > SLOT) { fprintf(stderr, "harness: bad write\n"); exit(3); }
                 memcpy(real_of(a), bs.data(), bs.size());
             }
+            else if (op == "e") {
+                int k = t.n();
+                if (k == 0) det->disable(); else if (k == 1) det->enable(); else if (k == 2) det->startChecking(); else if (k == 3) det->stopChecking();
+                else { fprintf(stderr, "harness: bad period operation\n"); exit(3); }
+            }
+            else if (op == "s") { if (t.u()) det->increaseAllocationStage(); else det->decreaseAllocationStage(); }
+            else if (op == "m") { threadSafe = t.u() != 0; }
             else if (op == "t") { if (t.u()) det->enableAllocationTypeChecking(); else det->disableAllocationTypeChecking(); }
             else { fprintf(stderr, "harness: bad op %s\n", op.c_str()); exit(3); }
         }
